@@ -242,6 +242,13 @@ def run(tier, replay):
     # "the matched route's CORS headers" is part of what C01 states: a disagreement here gates C01
     c01_cors.run_part(ctx, tier)
 
+    # ---- 5. the TLS side (spec/tls, harness-tls; feature `tls`, which neither the test-suite nor any other check compiles).
+    # "On any client connection": the per-connection loop over a TLS stream is C01 itself, so connections to App::run_tls
+    # that HttpConn cannot explain gate; handshake handling, the force-HTTPS listener and the https client go beyond
+    # the statement and are reported as drift.
+    import c01_tls
+    vlib.run_growth(ctx, "tls", c01_tls.run_part, tier, gate_kinds=("tls-connections",))
+
     ctx.cov["rule"] = ("one evaluation = one real loopback connection (script x segmentation x runtime) whose client log was validated by TLC; "
                        "non-trivial = distinct (runtime, request kinds, plan, number of segments) with >= 2 script elements or a split delivery")
     ctx.assumptions += ["Expected(script) in HttpConn.tla is the reading of the property (DESIGN 5a: 400/408 checked for status and close only)",
